@@ -76,6 +76,19 @@ CHECKS = {
             "cell, the credited path and the returned point are judged at every pull.",
             "np.random.choice is trusted to honour p; binary-child partitions only; rank ties free.",
             "stateless bounded-exhaustive enumeration of rewards and RNG answers through an in-process RNG seam, reference checker on the sampler's input"),
+    "C09": ("model_checking", "3 C09",
+            "The reward-independent schedule is enumerated exhaustively: every integer budget n in [100,600] (thorough: 2000) x 8 rho_max x 2 "
+            "nu_max x 3 base names with recording stub learners, driven to n+3 rounds, plus real learners (GPO x3, PCT, VPCT) under all "
+            "reward sequences of the first rounds and deviation-bounded scripts over n=100; every learner construction, pull, reward "
+            "delivery, validation score and final recommendation is compared with a model of GPO.png.",
+            "floor(n/2N)=0 configurations are skipped (finding D11 of C01); stubs keep the dispatch names.",
+            "exhaustive enumeration of schedules (E-sched) and scripts against a reference model of the published phase machine"),
+    "C10": ("model_checking", "3 C10",
+            "POO x 4 rho_max x 3 base names x {stub, real learners}: every reward sequence in {0,1,-1}^8 and deviation-bounded scripts over "
+            "100-400 rounds (creation batches and round-robin passes); per round exactly one learner pulled and rewarded, learners only "
+            "added on the published rho grid, scores/counts equal the mean/length of each learner's own ledger, recommendation = next proposal of a best learner.",
+            "rho_max >= 0.84 (finding D7 of C01 below that); ties between learners free.",
+            "stateless bounded-exhaustive script enumeration of the implementation with recording learners against a routing/score ledger"),
 }
 
 LATER = {
